@@ -348,7 +348,8 @@ ItemSigs ==
   {Sig("none", <<>>, <<i>>) : i \in {iQ, iQo, iQA, iJ, iJo, iJA, iJAo, iU, iUo, iM, iMo, iT, iTo, iA, iAo, iX, iXo, iC, iCo}}
   \cup {Sig("none", <<>>, is) : is \in {<<iQ, iJ>>, <<iQo, iJo>>, <<iQ, iTo>>, <<iA, iJ>>, <<iAo, iCo>>, <<iC, iU>>, <<iJo, iTo>>, <<iX, iMo>>, <<iXo, iQ>>,
                                          <<iQ, iA, iJ>>, <<iQo, iAo, iUo>>, <<iQ, iA, iC, iJ>>, <<iQo, iXo, iCo, iTo>>}}
-  \cup {Sig("bare", <<"u32">>, <<iQ>>), Sig("bare", <<"String">>, <<iJ>>), Sig("bare", <<"i64">>, <<iQo, iJo>>), Sig("bare", <<"u8">>, <<iA, iT>>)}
+  \cup {Sig("bare", <<"u32">>, <<iQ>>), Sig("bare", <<"String">>, <<iJ>>), Sig("bare", <<"i64">>, <<iQo, iJo>>), Sig("bare", <<"u8">>, <<iA, iT>>),
+        Sig("bare", <<"u16">>, <<iQo, iA, iJ>>), Sig("bare", <<"isize">>, <<iQ, iAo, iXo, iUo>>)}
   \cup {Sig("tuple", <<"u32">>, <<iQ>>), Sig("tuple", <<"u32">>, <<iQ, iJ>>), Sig("tuple", <<"String">>, <<iJo>>),
         Sig("tuple", <<"i8">>, <<iAo, iCo, iU>>), Sig("tuple", <<"str">>, <<iQ, iA, iC, iJ>>)}
   \cup {Sig("tuple", <<"u32", "String">>, <<iQ>>), Sig("tuple", <<"String", "i8">>, <<iJ>>), Sig("tuple", <<"u32", "String">>, <<iQ, iJ>>),
